@@ -168,21 +168,6 @@ example : Multipart.PayloadOk (Multipart.str "bound")
     ¬ Multipart.PayloadOk (Multipart.str "bound") (Multipart.str "x\r\n--bound\r\ny") := by
   decide +kernel
 
-/-- **F02a.** The unrestricted encode → decode statement over event lists is false: an empty first
-Data event followed by a non-empty one is written without the blank line and the result does not
-decode. -/
-theorem decode_encode_events_full_false :
-    ¬ (∀ (n : List Char) (d1 d2 body : Bytes),
-        (Multipart.encodeEvents [98] .preamble
-            [.preamble [], .field (some n) [], .data d1 true, .data d2 false, .epilogue []]).toOption = some body →
-        (Multipart.decodeChunks [98] none none [body]).err = none) := by
-  intro h
-  have := h ['a'] [] [97, 98, 99]
-    (Multipart.str "\r\n--b\r\nContent-Disposition: form-data; name=\"a\"\r\nabc\r\n--b--\r\n")
-    (by decide +kernel)
-  revert this
-  decide +kernel
-
 /-- **decode_encode.** For every boundary without CR / LF and every list of parts satisfying the
 decidable predicate `ValidPart` (a name; names / filenames free of `"`, `\`, `%22`, CR, LF — any
 other Unicode text; `isFile` iff there is a filename; extra headers that fit on a header line and
@@ -235,12 +220,38 @@ theorem decode_encode_chunked {bnd : Bytes} (hb : Multipart.BoundaryOk bnd) (par
   ⟨Multipart.encBody bnd parts, Multipart.encodeAll_eq parts hv,
     fun hj => Multipart.decode_chunks_full_lemma hb parts hv chunks hj⟩
 
+/-- **decode_encode_events** (F02a, repaired by d57c0c6). The payload of a part may reach the encoder
+in any number of Data events — `more_data` on all but the last, empty chunks anywhere, in particular
+an empty first chunk: the encoder writes the same bytes as for one Data event per part, so for every
+chunking on the encoder side *and* every chunking on the decoder side the parts come back exactly. -/
+theorem decode_encode_events {bnd : Bytes} (hb : Multipart.BoundaryOk bnd)
+    (cs : List Multipart.ChunkedPart)
+    (hv : ∀ c ∈ cs, Multipart.ValidPart bnd c.1 ∧ c.2.1.flatten ++ c.2.2 = c.1.payload)
+    (chunks : List Bytes) :
+    ∃ body,
+      Multipart.encodeEvents bnd .preamble
+        (.preamble [] :: (cs.flatMap Multipart.chunkedEvents ++ [.epilogue []])) = .ok body ∧
+      (chunks.flatten = body →
+        (Multipart.decodeChunks bnd none none chunks).err = none ∧
+        Multipart.partsOf (Multipart.decodeChunks bnd none none chunks).events =
+          (cs.map (·.1)).map Multipart.decodedPart) := by
+  refine ⟨Multipart.encBody bnd (cs.map (·.1)), Multipart.encodeEvents_chunked cs hv, fun hj => ?_⟩
+  exact Multipart.decode_chunks_full_lemma hb _
+    (by intro p hp; rcases List.mem_map.1 hp with ⟨c, hc, rfl⟩; exact (hv c hc).1) chunks hj
+
+/-- regression for F02a: the formerly failing event sequence (empty first Data event with
+`more_data`, then data) now encodes with the blank line and decodes -/
+example :
+    (Multipart.encodeEvents [98] .preamble
+      [.preamble [], .field (some ['a']) [], .data [] true, .data [97, 98, 99] false, .epilogue []]).toOption =
+      some (Multipart.str "\r\n--b\r\nContent-Disposition: form-data; name=\"a\"\r\n\r\nabc\r\n--b--\r\n") ∧
+    (Multipart.decodeChunks [98] none none
+      [Multipart.str "\r\n--b\r\nContent-Disposition: form-data; name=\"a\"\r\n\r\nabc\r\n--b--\r\n"]).err = none := by
+  decide +kernel
+
 /-
-The statement over arbitrary Data chunkings of a part on the *encoder* side is false
-(`decode_encode_events_full_false`, finding F02a); `decode_encode` / `decode_encode_chunked` are for
-the event sequence `stream_encode_multipart` sends (one Data event per part). The composition with
-`parse_options_header`, `_parse_headers`, FileStorage construction, charset decoding of field values
-and the test client is exercised on the real code by streams `encoder-events` and `client-roundtrip`.
+The composition with FileStorage construction, charset decoding of field values and the test client
+is exercised on the real code by streams `encoder-events` and `client-roundtrip`.
 -/
 
 end Wz.Props.C02
